@@ -229,6 +229,8 @@ static void stage_cube(Case &c)
     API("opn2_setScaleModulators", opn2_setScaleModulators(r.dev, 0));
     API("opn2_setFullRangeBrightness", opn2_setFullRangeBrightness(r.dev, k.fullrange));
     API("opn2_rt_patchChange", opn2_rt_patchChange(r.dev, (uint8_t)k.ch, (uint8_t)program));
+    // the soft pedal is one more fixed input of the case: with it down the same monotonicity must hold
+    if(rng.chance(0.3)) { API("opn2_rt_controllerChange", opn2_rt_controllerChange(r.dev, (uint8_t)k.ch, 67, 127)); count("cases_with_soft_pedal"); }
     r.tap.log.clear();
 
     const size_t NA = A.size();
@@ -333,6 +335,7 @@ static void stage_config(Case &c)
     API("opn2_setScaleModulators", opn2_setScaleModulators(r.dev, scaling));
     API("opn2_setFullRangeBrightness", opn2_setFullRangeBrightness(r.dev, fullrange));
     if(!perc) API("opn2_rt_patchChange", opn2_rt_patchChange(r.dev, (uint8_t)k.ch, (uint8_t)program));
+    if(rng.chance(0.3)) { API("opn2_rt_controllerChange", opn2_rt_controllerChange(r.dev, (uint8_t)k.ch, 67, 127)); count("cases_with_soft_pedal"); }
     r.tap.log.clear();
     std::vector<int> A = axis_values(true), V = axis_values(false);
     int npoints = (int)g_w.optnum("points", g_w.tier == "thorough" ? 40 : 8);
